@@ -23,6 +23,12 @@ type History struct {
 	// It is what a replica that received a snapshot at that checkpoint has
 	// "seen", independently of the vector the snapshot response claims.
 	LogVV func(upTo int64) (time.VersionVector, int64)
+	// LamportOnly switches the pointwise vector rule off (known finding F23:
+	// a snapshot stored while no client has a vector row carries an empty
+	// vector). Every lamport rule stays on: a change is strictly newer than
+	// everything its author had applied, own timestamps only grow, (lamport,
+	// actor) is unique, vv[self] == lamport.
+	LamportOnly bool
 	// Counters for classification.
 	Responses, SnapshotResponses, MinVVChecks, CausalChecks int
 }
@@ -90,7 +96,7 @@ func (h *History) OnLocalChange(p *Peer) {
 				ph.idx, id.Lamport(), ph.seenLamp)
 		}
 		for a, l := range ph.seenVV {
-			if ph.gcFree {
+			if ph.gcFree || h.LamportOnly {
 				// a GC-free attachment is synchronised by lamport only (its
 				// contract: commutative edits, no tombstones); the pointwise
 				// vector rule is checked for participating clients
